@@ -126,7 +126,9 @@ def correspond_c20(tier, impl_only=False):
     # ---------------- C. create_device! against the library output (behaviour under recording mocks)
     import p_runtime, rtprobe, random
     nmac = 30 if thorough else 5
-    cand = [c for c in acc if not p_runtime.has_cfg(c) and not p_runtime.wo_field(c)][:nmac]
+    # the integer-edge manifests first (the macro, too, must pick the parser by the file's extension), then ordinary ones
+    must_ok = [c for c in must if runs[0].get(c["id"], {}).get("facts", {}).get("outcome") == "ok"]
+    cand = (must_ok + [c for c in acc if not p_runtime.has_cfg(c) and not p_runtime.wo_field(c)])[:nmac + len(must_ok)]
     if cand:
         d = os.path.join(WORK, prop, "macro")
         defs = os.path.join(d, "probe", "defs")     # the crate root is <d>/probe; rustc runs in <d>
